@@ -22,7 +22,7 @@
 From Coq Require Import ZArith QArith Qabs List Bool.
 From Verif.Model Require Import Result Lexer Parser.
 Import ListNotations.
-Open Scope Q_scope.
+Local Open Scope Q_scope.
 
 Record cplx := mkC { re : Q; im : Q }.
 Inductive val := VS (c : cplx) | VA (l : list val).
